@@ -170,6 +170,9 @@ class DictionaryDataBase(DataBase):
             Index of the data to be updated.
         """
         with self._lock:
+            if index not in self.database:
+                # Never resurrect an object that was deleted in the meantime
+                return False
             self.database[index] = data
             return True
 
